@@ -11,6 +11,7 @@ import (
 
 	"github.com/gabriel-vasile/mimetype"
 	"github.com/gabriel-vasile/mimetype/internal/verifx/core"
+	"github.com/gabriel-vasile/mimetype/internal/verifx/ref"
 )
 
 // C01 — detection never crashes and always answers.
@@ -350,6 +351,18 @@ func c01Run(c *core.Ctx) {
 		}
 		if n <= 1<<16 {
 			apis(w.Data, fullMenu(n), []int{2}, "f2:witness-file")
+		}
+		// f2b: the same witness behind each byte-order mark (and behind a mark
+		// plus white space): detectors that skip a mark and later steps that do
+		// not (or the other way round) meet here
+		if n > 0 && n <= 2048 {
+			for _, b := range ref.BOMs {
+				for _, mid := range []string{"", "\r\n "} {
+					v := append(append(append([]byte{}, b.Bytes...), mid...), w.Data...)
+					c.R.States++
+					apis(v, []uint32{0, uint32(len(b.Bytes) + len(mid) + (n+1)/2), 3072}, []int{0, 1}, "f2b:bom+witness")
+				}
+			}
 		}
 	}
 
